@@ -1,6 +1,9 @@
 package verifsimrt
 
-import "io"
+import (
+	"io"
+	"time"
+)
 
 // Pipe is substituted for io.Pipe in the code under test where a goroutine
 // feeds a reader through a pipe (grpcclients' zstd read path): a synchronous
@@ -132,4 +135,21 @@ func (w *PipeWriter) CloseWithError(err error) error {
 		w.p.werr = err
 	}
 	return nil
+}
+
+// Sleep is substituted for time.Sleep (seam S8): it sleeps on the simulated
+// clock. Without an active simulation it is time.Sleep itself.
+func Sleep(d time.Duration) {
+	s := active.Load()
+	if s == nil {
+		time.Sleep(d)
+		return
+	}
+	if inert(s) {
+		s.park("", nil)
+		panic(killedSentinel{})
+	}
+	fired := false
+	s.AfterFunc(d, 0, func(time.Duration) { fired = true })
+	s.park("Sleep", func() bool { return fired })
 }
